@@ -725,7 +725,45 @@ func checkSingleWrite(p *an.Prog, r *an.Run, d *types.Named, kind string, m *ssa
 			bad = append(bad, "Deposit is modified at "+p.Pos(c.Pos()))
 		}
 	}
-	r.Check(len(bad) == 0, "single-write", key, m.Pos(), "every success path writes exactly one balance record = stored + credit; failing paths write nothing", "%s", strings.Join(bad, "; "))
+	// the ledger takes a movement of any size and sign: no refusal of the method depends on the amount itself (a range or
+	// sign check through a big.Int method or a helper). A paired transfer is several movements — the hosts' credits and
+	// the client's n-times larger negative debit — and a bound that passes the parts and refuses the whole leaves the
+	// credits in place with nobody debited.
+	if len(m.Params) >= 3 {
+		amount := m.Params[len(m.Params)-1]
+		for _, fn := range an.WithAnon(m) {
+			an.AllInstrs(fn, func(in ssa.Instruction) {
+				ret, ok := in.(*ssa.Return)
+				if !ok || len(ret.Results) == 0 || (fn.Recover != nil && ret.Block() == fn.Recover) {
+					return
+				}
+				if cls, _ := returnClass(ret); cls == "nil" {
+					return
+				}
+				for _, c := range an.ControllingIfs(ret.Block()) {
+					// a call among the condition's sources that is handed the amount (credit.IsInt64(), a helper's verdict on
+					// it): the verdict depends on the value by control flow, which the data-flow derivation does not show
+					looked := false
+					for _, nd := range p.Derives(0, c.If.Cond).Nodes {
+						call, isCall := nd.(*ssa.Call)
+						if !isCall {
+							continue
+						}
+						for _, a := range call.Call.Args {
+							if isParamValue(a, amount) {
+								looked = true
+							}
+						}
+					}
+					if !looked {
+						continue // credit == nil and the like: no method or helper looked at the value
+					}
+					bad = append(bad, "the refusal returned at "+p.Pos(ret.Pos())+" depends on the amount itself ("+p.Pos(c.If.Pos())+"): a transfer's credits can pass where its larger debit is refused, so a failed request creates credit")
+				}
+			})
+		}
+	}
+	r.Check(len(bad) == 0, "single-write", key, m.Pos(), "every success path writes exactly one balance record = stored + credit; failing paths write nothing", "%s", strings.Join(dedup(bad), "; "))
 }
 
 // sameSpaceKey: memory reads use the same index value as the write.
@@ -947,6 +985,64 @@ func creditUpdate(p *an.Prog, fn *ssa.Function, al *ssa.Alloc) (ssa.Value, ssa.I
 
 // isPlainParam: v is prm itself, or a load of a captured copy of it, with no
 // arithmetic in between.
+// isParamValue: v is the parameter prm itself as seen from its function or from a closure of it — the parameter, a load
+// of the cell it was spilled to, or a load of the free variable bound to that cell (nothing computed from it).
+func isParamValue(v ssa.Value, prm *ssa.Parameter) bool {
+	if v == ssa.Value(prm) {
+		return true
+	}
+	isCell := func(x ssa.Value) bool {
+		al, ok := x.(*ssa.Alloc)
+		if !ok {
+			return false
+		}
+		for _, ref := range *al.Referrers() {
+			if st, ok := ref.(*ssa.Store); ok && st.Addr == ssa.Value(al) && st.Val == ssa.Value(prm) {
+				return true
+			}
+		}
+		return false
+	}
+	u, ok := v.(*ssa.UnOp)
+	if !ok || u.Op != token.MUL {
+		if fv, isFV := v.(*ssa.FreeVar); isFV {
+			return freeVarBinding(fv) == ssa.Value(prm)
+		}
+		return false
+	}
+	if isCell(u.X) {
+		return true
+	}
+	if fv, isFV := u.X.(*ssa.FreeVar); isFV {
+		if b := freeVarBinding(fv); b != nil {
+			return isCell(b)
+		}
+	}
+	return false
+}
+
+// freeVarBinding: the value bound to fv where its closure is made (in the enclosing function), or nil.
+func freeVarBinding(fv *ssa.FreeVar) ssa.Value {
+	fn := fv.Parent()
+	par := fn.Parent()
+	if par == nil {
+		return nil
+	}
+	idx := -1
+	for i, x := range fn.FreeVars {
+		if x == fv {
+			idx = i
+		}
+	}
+	var out ssa.Value
+	an.AllInstrs(par, func(in ssa.Instruction) {
+		if mc, ok := in.(*ssa.MakeClosure); ok && mc.Fn == ssa.Value(fn) && idx >= 0 && idx < len(mc.Bindings) {
+			out = mc.Bindings[idx]
+		}
+	})
+	return out
+}
+
 func isPlainParam(p *an.Prog, v ssa.Value, prm *ssa.Parameter) bool {
 	if v == ssa.Value(prm) {
 		return true
